@@ -40,6 +40,12 @@ ENV = {'classes': [
                  _f('items', 'list', default={'l': []}), _f('opts', 'dict', default={'d': []})]],
     [MOD + 'S', [_f('p', ['obj', MOD + 'P']), _f('q', ['obj', MOD + 'Q'], noneable=True, default=None),
                  _f('z', 'any', noneable=True, default=None)]],
+    [MOD + 'W', [_f('inner', ['obj', MOD + 'P'], default={'o': MOD + 'P', 'a': [['x', 1], ['y', 'a']]}),
+                 _f('tags', 'list', default={'l': []}), _f('n', 'int', default=0)]],
+    [MOD + 'W2', [_f('w', ['obj', MOD + 'W'],
+                     default={'o': MOD + 'W', 'a': [['inner', {'o': MOD + 'P', 'a': [['x', 1], ['y', 'a']]}],
+                                                    ['tags', {'l': []}], ['n', 0]]}),
+                  _f('k', 'str', default='k'), _f('extra', 'dict', default={'d': []})]],
 ]}
 # A class that is importable but not registered (auto_register = False): seen only with auto_import.
 N_CLASS = [MOD + 'N', [_f('x', 'int'), _f('w', 'any', noneable=True, default=None)]]
@@ -578,6 +584,74 @@ def gen_seq_case(rng):
   return {'kind': 'seq', 'backend': backend, 'ops': ops}
 
 
+def _P(x=1, y='a'):
+  return {'o': MOD + 'P', 'a': [['x', x], ['y', y]]}
+
+
+def _W(inner=None, tags=None, n=0):
+  return {'o': MOD + 'W', 'a': [['inner', inner or _P()], ['tags', {'l': tags or []}], ['n', n]]}
+
+
+def _W2(w=None, k='k', extra=None):
+  return {'o': MOD + 'W2', 'a': [['w', w or _W()], ['k', k], ['extra', {'d': extra or []}]]}
+
+
+W_PATHS = [['n'], ['inner', 'y'], ['inner', 'x'], ['tags']]
+W2_PATHS = [['k'], ['extra']] + [['w'] + q for q in W_PATHS]
+
+
+def gen_hist_case(rng):
+  """Histories around serialisation: serialise (every option combination, as JSON / text / saved
+  file), change the value at depth 1, 2 or 3 (attribute, list append, dict key), query the memoised
+  derived state, serialise again. Values start at — and are moved back to — their field defaults."""
+  w2 = _W2() if rng.chance(0.6) else _W2(w=_W(inner=_P(rng.choice([1, 2]), rng.choice(['a', 'b'])), n=rng.below(2)),
+                                          k=rng.choice(['k', 'z']))
+  w = _W() if rng.chance(0.6) else _W(inner=_P(3, 'c'), tags=[1])
+  t = rng.below(5)
+  if t == 0:
+    root, targets = w2, [([], 'W2')]
+  elif t == 1:
+    root, targets = {'d': [['a', w2], ['b', {'l': [w]}]]}, [(['a'], 'W2'), (['b', 0], 'W')]
+  elif t == 2:
+    root, targets = {'o': MOD + 'Q', 'a': [['a', w2], ['b', False], ['n', None]]}, [(['a'], 'W2')]
+  elif t == 3:
+    root = {'o': MOD + 'R', 'a': [['k', 'kind-r'], ['items', {'l': [w]}], ['opts', {'d': [['o', w2]]}]]}
+    targets = [(['items', 0], 'W'), (['opts', 'o'], 'W2')]
+  else:
+    root = {'o': MOD + 'S', 'a': [['p', _P()], ['q', None], ['z', w]]}
+    targets = [(['z'], 'W'), ([], 'S')]
+  steps = []
+
+  def ser():
+    opts = None if rng.chance(0.25) else {'hide_frozen': rng.chance(0.6), 'hide_default_values': rng.chance(0.75)}
+    return {'op': 'ser', 'opts': opts, 'via': rng.weighted([(5, 'json'), (2, 'str'), (2, 'save')])}
+  steps.append(ser())
+  for _ in range(rng.randint(2, 7)):
+    k = rng.weighted([(5, 'mutate'), (5, 'ser'), (1, 'query')])
+    if k == 'ser':
+      steps.append(ser())
+    elif k == 'query':
+      steps.append({'op': 'query'})
+    else:
+      prefix, kind = rng.choice(targets)
+      if kind == 'S':
+        steps.append({'op': 'set', 'path': ['p', rng.choice(['x', 'y'])], 'v': None})
+      else:
+        q = rng.choice(W2_PATHS if kind == 'W2' else W_PATHS)
+        path = prefix + q
+        if q[-1] == 'tags':
+          steps.append({'op': 'append', 'path': path, 'v': rng.choice([1, 'x', {'l': [2]}])})
+        elif q[-1] == 'extra':
+          steps.append({'op': 'setkey', 'path': path, 'key': rng.choice(['e', 'f']), 'v': rng.choice([1, 'x'])})
+        else:
+          steps.append({'op': 'set', 'path': path, 'v': None})
+      if steps[-1]['op'] == 'set':
+        last = steps[-1]['path'][-1]
+        steps[-1]['v'] = rng.choice([0, 1, 2, 5]) if last in ('x', 'n') else rng.choice(['a', 'b', 'k', 'z'])
+  steps.append(ser())
+  return {'kind': 'hist', 'value': root, 'steps': steps}
+
+
 def gen_dna_case(rng):
   tg = TreeGen(rng, floats=False, objects=False)
   meta = None
@@ -781,7 +855,7 @@ class _Impl:
     pg = self.pg
     vs = pg.typing
     out = []
-    for name in ('P', 'Q', 'R', 'S'):
+    for name in ('P', 'Q', 'R', 'S', 'W', 'W2'):
       cls = self.classes[name]
       fields = []
       for key, field in cls.__schema__.fields.items():
@@ -1462,6 +1536,85 @@ class _Impl:
             'empty_tuple': '"t": []' in json.dumps(wire(spec)),
             'empty_fixed_tuple': '["tuplef", []' in json.dumps(wire(spec))}
 
+  # -- histories around serialisation ----------------------------------------------------------
+  def hist_apply(self, v, step):
+    pg = self.pg
+    node = v
+    for k in step['path'][:-1]:
+      node = node.sym_getattr(k)
+    last = step['path'][-1]
+    if step['op'] == 'set':
+      if isinstance(node, pg.List):
+        node[last] = self.build(step['v'])
+      else:
+        node.rebind({last: self.build(step['v'])})
+    elif step['op'] == 'append':
+      node.sym_getattr(last).append(self.build(step['v']))
+    else:
+      node.sym_getattr(last)[step['key']] = self.build(step['v'])
+
+  def hist_query(self, v):
+    pg = self.pg
+
+    def visit(n):
+      if isinstance(n, pg.Symbolic):
+        _ = n.sym_nondefault()
+        _ = n.sym_missing()
+        _ = n.is_partial
+        for _, c in n.sym_items():
+          visit(c)
+    visit(v)
+
+  def hist_states(self, case):
+    """The value (tree wire) and the options at every serialisation of the history."""
+    v = self.build(case['value'])
+    out = []
+    for step in case['steps']:
+      if step['op'] == 'ser':
+        out.append((self.to_wire(v), step['opts']))
+      elif step['op'] != 'query':
+        try:
+          self.hist_apply(v, step)
+        except Exception:   # pylint: disable=broad-except
+          pass
+    return out
+
+  def hist(self, case):
+    pg = self.pg
+    v = self.build(case['value'])
+    outs, model = [], []
+    path = '/mem/c05_hist/value.json'
+    self.reset_mem()
+    for step in case['steps']:
+      if step['op'] == 'query':
+        self.hist_query(v)
+        outs.append(None)
+        continue
+      if step['op'] != 'ser':
+        outs.append(self.attempt(lambda: self.hist_apply(v, step)).get('err'))
+        continue
+      kw = step['opts'] or {}
+      cur = self.to_wire(v)
+      fresh = self.build(cur)
+      if step['via'] == 'json':
+        j = pg.to_json(v, **kw)
+        loaded = self.attempt(lambda: pg.from_json(pg.to_json(v, **kw), allow_partial=True))
+      elif step['via'] == 'str':
+        text = pg.to_json_str(v, **kw)
+        j = json.loads(text)
+        loaded = self.attempt(lambda: pg.from_json_str(text, allow_partial=True))
+      else:
+        pg.save(v, path, **kw)
+        j = json.loads(self.pg_io.readfile(path))
+        loaded = self.attempt(lambda: pg.load(path))
+      jf = pg.to_json(fresh, **kw)
+      rec = {'json': self.jv_wire(j), 'fresh_same': self.jv_wire(j) == self.jv_wire(jf), 'cur': cur,
+             'rt': {'ok': self.to_wire(loaded['ok'])} if 'ok' in loaded else loaded}
+      outs.append(rec)
+      model.append({'json': rec['json'], 'rt': rec['rt']})
+    self.reset_mem()
+    return {'outs': outs, 'model': {'outs': model}}
+
   # -- sequence backends: aliasing between what a read returns and what the store holds --------
   def mutate_in_place(self, x):
     pg = self.pg
@@ -1853,7 +2006,11 @@ class C05(Prop):
           '(replayed on a temp dir of the OS file system too) plus a messy stream (paths inside files, '
           'double slashes); hstore: histories over 1-3 paths with OPEN HANDLES as state (open r/w/a, partial '
           'read / readline / write through the handle, handles left open across later save / overwrite / '
-          'append / load of the same path, closed later or never; own-position abstract store as spec); spec: value specs / schemas / geno specs / DNA / functions. Non-trivial: a '
+          'append / load of the same path, closed later or never; own-position abstract store as spec); '
+          'hist: serialise / mutate at depth 1-3 / query memoised state / serialise again under all options, via '
+          'JSON, text and saved file; callable: functions of 9 origins from an importable module as leaf, list item, '
+          'field value and unchanged field default; seq: add / read / mutate-returned-record / two readers on '
+          '.mem, .mem@N, line sequences on /mem and the OS file system; spec: value specs / schemas / geno specs / DNA / functions. Non-trivial: a '
           'container or object value, a history with a write and a later read, a composite spec.')
   trusted_base = [
       "Python's json.dumps / json.loads (the text layer is an abstract bijection in the string-form theorem)",
@@ -1948,6 +2105,8 @@ class C05(Prop):
       yield gen_vspec_case(rng)
     for i in range(300 if quick else 12000):
       yield gen_seq_case(rng)
+    for i in range(300 if quick else 12000):
+      yield gen_hist_case(rng)
     origins = ['module-def', 'module-lambda', 'class-body-lambda', 'class-body-def', 'nested-def', 'nested-lambda',
                'builtin', 'classmethod', 'partial']
     for origin in origins:                       # small and exhaustive: every origin in every position
@@ -2020,6 +2179,8 @@ class C05(Prop):
       return im.callable_case(case)
     if k == 'seq':
       return im.seq(case)
+    if k == 'hist':
+      return im.hist(case)
     raise AssertionError(k)
 
   def model_request(self, case):
@@ -2035,6 +2196,13 @@ class C05(Prop):
       return req
     if k == 'callable':
       return {'op': 'fn'}
+    if k == 'hist':
+      self.setup_impl()
+      items = []
+      for cur, opts in C05._impl.hist_states(case):
+        o = opts or {'hide_frozen': True, 'hide_default_values': False}
+        items.append({'value': cur, 'hide_frozen': o['hide_frozen'], 'hide_default_values': o['hide_default_values']})
+      return {'op': 'codec_many', 'env': ENV, 'items': items}
     if k == 'seq':
       b = case['backend']
       if b == 'std':
@@ -2109,6 +2277,12 @@ class C05(Prop):
 
   def compare(self, case, impl_out, model_out):
     k = case['kind']
+    if k == 'hist':
+      a, b = impl_out['model']['outs'], model_out['outs']
+      for i, (x, y) in enumerate(zip(a, b)):
+        if x != y:
+          return 'serialisation %d of the history: impl=%s model=%s' % (i, json.dumps(x)[:300], json.dumps(y)[:300])
+      return None if len(a) == len(b) else 'different number of serialisations'
     if k == 'seq':
       reads = [o for op, o in zip(case['ops'], model_out['outs']) if op['k'] in ('read', 'read2')]
       a = impl_out['model']['reads']
@@ -2191,6 +2365,22 @@ class C05(Prop):
     k = case['kind']
     if k == 'dyn':
       return self.oracle({'kind': 'codec', 'value': out['wire'], 'ap': False}, out)
+    if k == 'hist':
+      n = 0
+      for i, (step, o) in enumerate(zip(case['steps'], out['outs'])):
+        if step['op'] != 'ser':
+          continue
+        n += 1
+        what = None
+        if not o['fresh_same']:
+          what = 'differs from the serialisation of a freshly built equal value'
+        elif o['rt'] != {'ok': o['cur']}:
+          what = 'does not load back to the current value: %s' % json.dumps(o['rt'])[:200]
+        if what:
+          return {'signature': 'hist:%s:%s' % ('first' if n == 1 else 'later', what.split(':')[0][:50]),
+                  'what': 'step %d (%s, options %s, serialisation no. %d of the history) %s' % (
+                      i, step['via'], step['opts'], n, what)}
+      return None
     if k == 'seq':
       spec = {}
       for i, (op, o) in enumerate(zip(case['ops'], out['outs'])):
@@ -2487,6 +2677,8 @@ class C05(Prop):
       return True
     if k == 'seq':
       return any(op['k'] == 'mutate' or op['k'] == 'read2' for op in case['ops'])
+    if k == 'hist':
+      return any(st['op'] in ('set', 'append', 'setkey') for st in case['steps'])
     if k in ('store', 'hstore'):
       ops = case['ops']
       wrote = set()
@@ -2532,6 +2724,15 @@ class C05(Prop):
     elif k in ('load', 'load_str'):
       rt = out['model']['rt']
       h.append('%s%s:%s' % (k, '+auto_dict' if case.get('auto_dict') else '', 'ok' if 'ok' in rt else rt['err']))
+    elif k == 'hist':
+      for st in case['steps']:
+        if st['op'] == 'ser':
+          h.append('hist:ser:%s:%s' % (st['via'], 'default-options' if st['opts'] is None else
+                                       'hide_frozen=%s,hide_default=%s' % (st['opts']['hide_frozen'], st['opts']['hide_default_values'])))
+        elif st['op'] == 'query':
+          h.append('hist:query')
+        else:
+          h.append('hist:%s:depth=%d' % (st['op'], len(st['path'])))
     elif k == 'seq':
       h.append('seq:backend=' + case['backend'])
       for op, o in zip(case['ops'], out['outs']):
@@ -2573,6 +2774,13 @@ class C05(Prop):
 
   def shrink_candidates(self, case):
     k = case['kind']
+    if k == 'hist':
+      steps = case['steps']
+      for i in range(len(steps)):
+        c = dict(case)
+        c['steps'] = steps[:i] + steps[i + 1:]
+        if any(st['op'] == 'ser' for st in c['steps']):
+          yield c
     if k == 'seq':
       ops = case['ops']
       for i in range(len(ops)):
